@@ -221,13 +221,6 @@ Proof.
       exists loc, k, r. repeat split; auto.
 Qed.
 
-Lemma run_calldata_same cs cd code cs' :
-  run_calldata cs cd = (code, cs') ->
-  out_tokens cs' = out_tokens cs /\ bind_amt cs' = bind_amt cs /\ next_seq cs' = next_seq cs /\ bal cs' = bal cs /\
-  supply cs' = supply cs /\ ack_status cs' = ack_status cs /\ fees cs' = fees cs.
-Proof. destruct cd; cbn; intro H; inv H; cbn; repeat split; auto. Qed.
-
-
 (** * The invariant *)
 
 (** Conservation (DESIGN.md 5.C03): for every origin chain [A], token [t] of [A] and other chain [B]:
@@ -278,10 +271,9 @@ Proof.
   congruence.
 Qed.
 
-Lemma transfer_chain_spec c cs0 u tok amt dst rcv cd cb ftok fee cs p :
-  transfer_chain cfg c cs0 u tok amt dst rcv cd cb ftok fee = Some (cs, p) ->
-  c <> dst /\ (c < nchains cfg)%nat /\ (dst < nchains cfg)%nat /\
-  p = {| p_src := c; p_dst := dst; p_seq := next_seq cs0 dst; p_sender := u; p_recv := rcv; p_token := tok;
+Lemma transfer_evm_spec c cs0 h tok amt dst rcv cd cb ftok fee cs p :
+  transfer_evm cfg c cs0 h tok amt dst rcv cd cb ftok fee = Some (cs, p) ->
+  p = {| p_src := c; p_dst := dst; p_seq := next_seq cs0 dst; p_sender := h; p_recv := rcv; p_token := tok;
          p_ori := p_ori p; p_amount := amt; p_cd := cd; p_cb := cb;
          p_status := Sent; p_code := 0; p_delivered := 0; p_refunded := 0; p_feepaid := 0 |} /\
   next_seq cs = upd1 (next_seq cs0) dst (next_seq cs0 dst + 1) /\
@@ -292,22 +284,43 @@ Lemma transfer_chain_spec c cs0 u tok amt dst rcv cd cb ftok fee cs p :
       amt * k <= bind_amt cs0 tok dst /\
       bind_amt cs = upd_tc (bind_amt cs0) tok dst (bind_amt cs0 tok dst - amt * k))).
 Proof.
-  unfold transfer_chain.
-  destruct (Nat.eqb c dst || negb (Nat.ltb dst (nchains cfg)) || negb (Nat.ltb c (nchains cfg))) eqn:E1; [discriminate|].
+  unfold transfer_evm.
   destruct ((amt =? 0) && cd_is_none cd); [discriminate|].
-  destruct (take_tokens cfg c cs0 (User u) tok amt dst) as [[cs1 ori]|] eqn:E2; [|discriminate].
-  destruct (take_fee cs1 (User u) ftok fee) as [cs2|] eqn:E3; [|discriminate].
+  destruct (take_tokens cfg c cs0 h tok amt dst) as [[cs1 ori]|] eqn:E2; [|discriminate].
+  destruct (take_fee cs1 h ftok fee) as [cs2|] eqn:E3; [|discriminate].
   intro H; inv H. cbn.
-  apply orb_false_iff in E1 as [E1 E1c]. apply orb_false_iff in E1 as [E1 E1d]. apply Nat.eqb_neq in E1.
-  apply negb_false_iff, Nat.ltb_lt in E1c, E1d.
   apply take_tokens_cases in E2 as (N1 & _ & _ & _ & E2).
   apply take_fee_same in E3 as (F1 & F2 & F3 & _).
-  split; [exact E1|]. split; [exact E1c|]. split; [exact E1d|]. split; [reflexivity|]. split; [rewrite F3, N1; reflexivity|].
+  split; [reflexivity|]. split; [rewrite F3, N1; reflexivity|].
   rewrite F1, F2.
   destruct E2 as [(A1 & A2 & A3)|[(A1 & A2 & A3 & A4 & A5)|(A1 & o & k & A2 & A3 & A4 & A5 & A6)]].
   - left. subst. auto.
   - right; left. auto.
   - right; right. split; [exact A1|]. exists o, k. auto.
+Qed.
+
+Lemma dst_ok_true c dst : dst_ok cfg c dst = true -> c <> dst /\ (c < nchains cfg)%nat /\ (dst < nchains cfg)%nat.
+Proof.
+  unfold dst_ok. intro H. apply andb_true_iff in H as [H H3]. apply andb_true_iff in H as [H1 H2].
+  apply negb_true_iff, Nat.eqb_neq in H1. apply Nat.ltb_lt in H2, H3. auto.
+Qed.
+
+Lemma transfer_chain_spec c cs0 h tok amt dst rcv cd cb ftok fee cs p :
+  transfer_chain cfg c cs0 h tok amt dst rcv cd cb ftok fee = Some (cs, p) ->
+  c <> dst /\ (c < nchains cfg)%nat /\ (dst < nchains cfg)%nat /\
+  p = {| p_src := c; p_dst := dst; p_seq := next_seq cs0 dst; p_sender := h; p_recv := rcv; p_token := tok;
+         p_ori := p_ori p; p_amount := amt; p_cd := cd; p_cb := cb;
+         p_status := Sent; p_code := 0; p_delivered := 0; p_refunded := 0; p_feepaid := 0 |} /\
+  next_seq cs = upd1 (next_seq cs0) dst (next_seq cs0 dst + 1) /\
+  ((amt = 0 /\ p_ori p = None /\ out_tokens cs = out_tokens cs0 /\ bind_amt cs = bind_amt cs0) \/
+   (amt <> 0 /\ bound cfg c tok dst = None /\ p_ori p = None /\ bind_amt cs = bind_amt cs0 /\
+      out_tokens cs = upd_tc (out_tokens cs0) tok dst (out_tokens cs0 tok dst + amt)) \/
+   (amt <> 0 /\ exists o k, bound cfg c tok dst = Some (o, k) /\ p_ori p = Some o /\ out_tokens cs = out_tokens cs0 /\
+      amt * k <= bind_amt cs0 tok dst /\
+      bind_amt cs = upd_tc (bind_amt cs0) tok dst (bind_amt cs0 tok dst - amt * k))).
+Proof.
+  unfold transfer_chain. destruct (dst_ok cfg c dst) eqn:E; [|discriminate].
+  apply dst_ok_true in E as (E1 & E2 & E3). intro H. apply transfer_evm_spec in H as (H1 & H2 & H3). auto 10.
 Qed.
 
 Ltac beq :=
@@ -338,9 +351,9 @@ Proof. intros H1 H2. unfold contrib. rewrite H1, H2. reflexivity. Qed.
 Lemma contrib_done A B t p : inflight (p_status p) = false -> contrib A B t p = 0.
 Proof. intro H. unfold contrib. rewrite H. reflexivity. Qed.
 
-Lemma transfer_inv s c u tok amt dst rcv cd cb ftok fee cs p :
+Lemma transfer_inv s c h tok amt dst rcv cd cb ftok fee cs p :
   Inv s ->
-  transfer_chain cfg c (chains s c) u tok amt dst rcv cd cb ftok fee = Some (cs, p) ->
+  transfer_chain cfg c (chains s c) h tok amt dst rcv cd cb ftok fee = Some (cs, p) ->
   Inv (set_chain s c cs (packets s ++ [p])).
 Proof.
   intros [Hw Hc] H. apply transfer_chain_spec in H as (Hne & Hcn & Hdn & Hp & Hn & Hcases).
@@ -399,18 +412,66 @@ Proof.
       * cbn [andb]. rewrite N.add_0_r. destruct (Nat.eqb_spec c A) as [<-|NA]; [rewrite A4|]; exact Hc.
 Qed.
 
-Lemma recv_chain_cases cs p code cs' d :
-  recv_chain cfg cs p = (code, cs', d) ->
-  (code <> 0 /\ cs' = cs /\ d = 0) \/
-  (code = 0 /\ exists cs1, give_tokens cfg cs p = Some (cs1, d) /\ out_tokens cs' = out_tokens cs1 /\
-     bind_amt cs' = bind_amt cs1 /\ next_seq cs' = next_seq cs1 /\ bal cs' = bal cs1 /\ supply cs' = supply cs1 /\
-     ack_status cs' = ack_status cs1 /\ fees cs' = fees cs1).
+(** extensionality of the invariant in the (functional) chain map *)
+Lemma Inv_ext s s' : (forall c, chains s c = chains s' c) -> packets s = packets s' -> Inv s -> Inv s'.
+Proof.
+  intros Hc Hp [[Hu Hall] Hcons]. split; [split|].
+  - rewrite <- Hp. exact Hu.
+  - intros p Hin. rewrite <- Hp in Hin. destruct (Hall p Hin) as [H1 H2]. split; [exact H1|]. rewrite <- Hc. exact H2.
+  - intros A B t HAB. specialize (Hcons A B t HAB). rewrite <- !Hc, <- Hp. exact Hcons.
+Qed.
+
+Lemma agent_send_cases c cs1 p d ref rcv2 dst2 fee code cs2 onw :
+  agent_send cfg c cs1 p d ref rcv2 dst2 fee = (code, cs2, onw) ->
+  (code <> 0 /\ onw = None) \/
+  (code = 0 /\ exists q T a2 feer, onw = Some q /\
+     transfer_chain cfg c cs1 Agent T a2 dst2 rcv2 CdNone (CbAgent ref) T feer = Some (cs2, q)).
+Proof.
+  unfold agent_send. destruct (p_recv p) as [[]|]; try (intro H; inv H; left; split; [discriminate|reflexivity]).
+  destruct (delivered_token cfg p) as [[T kin]|]; [|intro H; inv H; left; split; [discriminate|reflexivity]].
+  destruct ((p_amount p =? 0) || (d <=? fee * kin) || Nat.eqb c dst2); [intro H; inv H; left; split; [discriminate|reflexivity]|].
+  match goal with |- context [match ?x with Some a2 => _ | None => _ end] => destruct x as [a2|] end;
+    [|intro H; inv H; left; split; [discriminate|reflexivity]].
+  destruct (transfer_evm cfg c cs1 Agent T a2 dst2 rcv2 CdNone (CbAgent ref) T (fee * kin)) as [[cs3 q]|] eqn:E;
+    [|intro H; inv H; left; split; [discriminate|reflexivity]].
+  destruct (dst_ok cfg c dst2) eqn:Ed; intro H; inv H.
+  - right. split; [reflexivity|]. exists q, T, a2, (fee * kin). split; [reflexivity|]. unfold transfer_chain. rewrite Ed. exact E.
+  - left. split; [discriminate|reflexivity].
+Qed.
+
+Definition same_core (cs' cs1 : cstate) : Prop :=
+  out_tokens cs' = out_tokens cs1 /\ bind_amt cs' = bind_amt cs1 /\ next_seq cs' = next_seq cs1 /\ bal cs' = bal cs1 /\
+  supply cs' = supply cs1 /\ ack_status cs' = ack_status cs1 /\ fees cs' = fees cs1.
+
+Lemma run_calldata_cases cs p d code cs2 onw :
+  run_calldata cfg cs p d = (code, cs2, onw) ->
+  (code <> 0 /\ onw = None) \/
+  (code = 0 /\ onw = None /\ same_core cs2 cs) \/
+  (code = 0 /\ exists q T a2 feer ref rcv2 dst2, onw = Some q /\
+     transfer_chain cfg (p_dst p) cs Agent T a2 dst2 rcv2 CdNone (CbAgent ref) T feer = Some (cs2, q)).
+Proof.
+  unfold run_calldata. destruct (p_cd p) as [|e| | |ref rcv2 dst2 fee].
+  - intro H; inv H. right; left. unfold same_core. repeat split; auto.
+  - intro H; inv H. right; left. unfold same_core. cbn. repeat split; auto.
+  - intro H; inv H. left. split; [discriminate|reflexivity].
+  - intro H; inv H. left. split; [discriminate|reflexivity].
+  - intro H. apply agent_send_cases in H as [H|(-> & q & T & a2 & feer & -> & H)]; [left; exact H|].
+    right; right. split; [reflexivity|]. exists q, T, a2, feer, ref, rcv2, dst2. auto.
+Qed.
+
+Lemma recv_chain_cases cs p code cs' d onw :
+  recv_chain cfg cs p = (code, cs', d, onw) ->
+  (code <> 0 /\ cs' = cs /\ d = 0 /\ onw = None) \/
+  (code = 0 /\ exists cs1, give_tokens cfg cs p = Some (cs1, d) /\
+     ((onw = None /\ same_core cs' cs1) \/
+      (exists q T a2 feer ref rcv2 dst2, onw = Some q /\
+         transfer_chain cfg (p_dst p) cs1 Agent T a2 dst2 rcv2 CdNone (CbAgent ref) T feer = Some (cs', q)))).
 Proof.
   unfold recv_chain. destruct (give_tokens cfg cs p) as [[cs1 d1]|] eqn:E.
-  - destruct (run_calldata cs1 (p_cd p)) as [code1 cs2] eqn:E2.
+  - destruct (run_calldata cfg cs1 p d1) as [[code1 cs2] onw1] eqn:E2.
     destruct (code1 =? 0) eqn:E3; intro H; inv H.
-    + right. split; [reflexivity|]. exists cs1. apply run_calldata_same in E2 as (R1 & R2 & R3 & R4 & R5 & R6 & R7).
-      repeat split; auto.
+    + right. split; [reflexivity|]. exists cs1. split; [reflexivity|]. apply N.eqb_eq in E3. subst code1.
+      apply run_calldata_cases in E2 as [[H _]|[(_ & -> & H)|(_ & H)]]; [congruence|left; auto|right; exact H].
     + left. apply N.eqb_neq in E3. auto.
   - intro H; inv H. left. repeat split; auto. discriminate.
 Qed.
@@ -427,10 +488,12 @@ Proof.
   destruct (p_ori p); destruct (_ && _); reflexivity.
 Qed.
 
-Lemma recv_inv s src dst sq p code cs' d :
+Lemma recv_core s src dst sq p code cs' d :
   Inv s ->
   lookup src dst sq (packets s) = Some p -> is_sent p = true ->
-  recv_chain cfg (chains s dst) p = (code, cs', d) ->
+  ((code <> 0 /\ cs' = chains s dst) \/
+   (code = 0 /\ exists cs1 d1, give_tokens cfg (chains s dst) p = Some (cs1, d1) /\
+      out_tokens cs' = out_tokens cs1 /\ bind_amt cs' = bind_amt cs1 /\ next_seq cs' = next_seq cs1)) ->
   Inv (set_chain s dst cs' (update src dst sq (on_recv code d) (packets s))).
 Proof.
   intros [Hw Hc] Hl Hs Hr. destruct Hw as [Hu Hall].
@@ -438,7 +501,7 @@ Proof.
   assert (Hst : p_status p = Sent) by (unfold is_sent in Hs; destruct (p_status p); congruence).
   destruct (Hall p Hin) as [Hpok _].
   assert (Hnext : next_seq cs' = next_seq (chains s dst)).
-  { apply recv_chain_cases in Hr as [(_ & -> & _)|(_ & cs1 & G & _ & _ & N1 & _)]; [reflexivity|].
+  { destruct Hr as [(_ & ->)|(_ & cs1 & d1 & G & _ & _ & N1)]; [reflexivity|].
     apply give_tokens_cases in G as (N2 & _). congruence. }
   split.
   - split; cbn [packets set_chain].
@@ -454,7 +517,7 @@ Proof.
   - intros A B t HAB. specialize (Hc A B t HAB). cbn [packets set_chain]. rewrite !chains_set_chain.
     pose proof (sum_contrib_update A B t src dst sq (on_recv code d) (packets s) p Hu Hl) as Hsum.
     assert (Hinf : inflight (p_status p) = true) by (rewrite Hst; reflexivity).
-    apply recv_chain_cases in Hr as [(Hcode & -> & _)|(Hcode & cs1 & G & R1 & R2 & _)].
+    destruct Hr as [(Hcode & ->)|(Hcode & cs1 & d1 & G & R1 & R2 & _)].
     + (* error acknowledgement: nothing changes, the packet stays in flight *)
       assert (contrib A B t (on_recv code d p) = contrib A B t p) as E.
       { unfold contrib. cbn. apply N.eqb_neq in Hcode. rewrite Hcode, Hst. reflexivity. }
@@ -493,6 +556,28 @@ Proof.
            destruct (Nat.eqb_spec dst B) as [<-|NB]; [rewrite R2|]; exact Hc.
 Qed.
 
+Lemma recv_inv s src dst sq p code cs' d onw :
+  Inv s ->
+  lookup src dst sq (packets s) = Some p -> is_sent p = true ->
+  recv_chain cfg (chains s dst) p = (code, cs', d, onw) ->
+  Inv (set_chain s dst cs' (update src dst sq (on_recv code d) (packets s) ++ opt_list onw)).
+Proof.
+  intros HI Hl Hs Hr.
+  destruct (lookup_in _ _ _ _ _ Hl) as [_ Hk]. apply key_is_true in Hk as (_ & K2 & _).
+  apply recv_chain_cases in Hr as [(Hc & -> & _ & ->)|(-> & cs1 & G & [(-> & S1 & S2 & S3 & _)|(q & T & a2 & feer & ref & rcv2 & dst2 & -> & Ht)])].
+  - cbn [opt_list]. rewrite app_nil_r. eapply recv_core; eauto.
+  - cbn [opt_list]. rewrite app_nil_r. eapply recv_core; eauto. right. split; [reflexivity|]. exists cs1, d. auto.
+  - (* the callback sent a packet on: receive, then a transfer by the agent on the resulting state *)
+    cbn [opt_list]. rewrite K2 in Ht.
+    pose (s1 := set_chain s dst cs1 (update src dst sq (on_recv 0 d) (packets s))).
+    assert (H1 : Inv s1).
+    { eapply recv_core; eauto. right. split; [reflexivity|]. exists cs1, d. auto. }
+    assert (Hcs : chains s1 dst = cs1) by (unfold s1; rewrite chains_set_chain, Nat.eqb_refl; reflexivity).
+    rewrite <- Hcs in Ht. apply (transfer_inv s1) in Ht; [|exact H1].
+    refine (Inv_ext _ _ _ _ Ht); [|reflexivity].
+    intro c. unfold s1. rewrite !chains_set_chain. destruct (Nat.eqb dst c); reflexivity.
+Qed.
+
 Lemma give_back_cases cs p cs' r :
   give_back cfg cs p = Some (cs', r) ->
   next_seq cs' = next_seq cs /\ ack_status cs' = ack_status cs /\ fees cs' = fees cs /\ effects cs' = effects cs /\
@@ -517,7 +602,7 @@ Qed.
 
 Lemma ack_chain_cases cs p cs' r :
   ack_chain cfg cs p = Some (cs', r) ->
-  p_cb p = CbNone /\ next_seq cs' = next_seq cs /\
+  p_cb p <> CbBroken /\ next_seq cs' = next_seq cs /\
   ((p_code p = 0 /\ r = 0 /\ out_tokens cs' = out_tokens cs /\ bind_amt cs' = bind_amt cs) \/
    (p_code p <> 0 /\ p_amount p <> 0 /\ p_ori p = None /\ r = p_amount p /\ bind_amt cs' = bind_amt cs /\
       p_amount p <= out_tokens cs (p_token p) (p_dst p) /\
@@ -526,11 +611,23 @@ Lemma ack_chain_cases cs p cs' r :
       r = p_amount p * k /\ out_tokens cs' = out_tokens cs /\
       bind_amt cs' = upd_tc (bind_amt cs) (p_token p) (p_dst p) (bind_amt cs (p_token p) (p_dst p) + p_amount p * k))).
 Proof.
-  unfold ack_chain. destruct (p_cb p); [|discriminate].
-  destruct (fees cs (p_dst p) (p_seq p)) as [ft f].
-  match goal with |- context [if ?c then _ else _] => destruct c end; [|discriminate].
-  intro H. apply give_back_cases in H as (N1 & _ & _ & _ & H). cbn in *. split; [reflexivity|]. split; [exact N1|].
-  destruct H as [(A1 & -> & A3)|[(A1 & A2 & A3 & A4 & A5 & A6 & A7)|(A1 & A2 & t & o & k & A3 & A4 & A5 & A6 & A7)]].
+  unfold ack_chain. intro H.
+  assert (Hcb : p_cb p <> CbBroken) by (destruct (p_cb p); congruence).
+  split; [exact Hcb|].
+  assert (G : exists cs2 ft f,
+             give_back cfg (move (set_ackst cs (upd_cs (ack_status cs) (p_dst p) (p_seq p) (if p_code p =? 0 then 1 else 2)))
+                               ft PacketC Relayer f) p = Some (cs2, r) /\
+             out_tokens cs' = out_tokens cs2 /\ bind_amt cs' = bind_amt cs2 /\ next_seq cs' = next_seq cs2).
+  { destruct (fees cs (p_dst p) (p_seq p)) as [ft f].
+    destruct (p_cb p) as [| |ref]; [|congruence|];
+      (match type of H with (if ?c then _ else _) = _ => destruct c end; [|discriminate]);
+      (match type of H with match ?g with Some _ => _ | None => _ end = _ => destruct g as [[cs2 r2]|] eqn:Eg end; [|discriminate]);
+      injection H as <- <-; exists cs2, ft, f; (split; [exact Eg|]).
+    - auto.
+    - destruct (r2 =? 0); cbn; auto. }
+  destruct G as (cs2 & ft & f & G & -> & -> & ->).
+  apply give_back_cases in G as (N1 & _ & _ & _ & H'). cbn in *. split; [exact N1|].
+  destruct H' as [(A1 & -> & A3)|[(A1 & A2 & A3 & A4 & A5 & A6 & A7)|(A1 & A2 & t & o & k & A3 & A4 & A5 & A6 & A7)]].
   - left. cbn. auto.
   - right; left. repeat split; auto.
   - right; right. repeat split; auto. exists t, o, k. repeat split; auto.
@@ -622,11 +719,11 @@ Qed.
 Theorem step_inv s o s' : Inv s -> step cfg s o = Ok s' -> Inv s'.
 Proof.
   intros HI H. unfold step, step_gen in H. destruct o as [c u tok amt dst rcv cd cb ftok fee|src dst sq|src dst sq|c u dst sq amt].
-  - destruct (transfer_chain cfg c (chains s c) u tok amt dst rcv cd cb ftok fee) as [[cs p]|] eqn:E; [|discriminate].
+  - destruct (transfer_chain cfg c (chains s c) (User u) tok amt dst rcv cd (if cb then CbBroken else CbNone) ftok fee) as [[cs p]|] eqn:E; [|discriminate].
     inv H. eapply transfer_inv; eauto.
   - destruct (lookup src dst sq (packets s)) as [p|] eqn:El; [|discriminate].
     destruct (is_sent p) eqn:Es; [|discriminate].
-    destruct (recv_chain cfg (chains s dst) p) as [[code cs] d] eqn:Er. inv H. eapply recv_inv; eauto.
+    destruct (recv_chain cfg (chains s dst) p) as [[[code cs] d] onw] eqn:Er. inv H. eapply recv_inv; eauto.
   - destruct (lookup src dst sq (packets s)) as [p|] eqn:El; [|discriminate].
     destruct (is_received p) eqn:Es; [|discriminate].
     destruct (ack_chain cfg (chains s src) p) as [[cs r]|] eqn:Er; [|discriminate]. inv H. eapply ack_inv; eauto.
